@@ -643,7 +643,7 @@ func redactString(s string, nonEncryptedValue string) string {
 	if shouldEncrypt && encryptionKey != nil {
 		encrypted, err := Encrypt([]byte(s), encryptionKey)
 		if err != nil {
-			return s // Fallback to original if encryption fails
+			return nonEncryptedValue // never fall back to the plaintext
 		}
 		return base64.StdEncoding.EncodeToString(encrypted)
 	}
